@@ -18,11 +18,6 @@ pub open spec fn kinds_of(dvs: Seq<v1::DecisionVariable>, k: Map<VariableID, v1:
     &&& forall|x: VariableID| k.contains_key(x) ==> exists|i: int| 0 <= i < dvs.len() && (#[trigger] dvs[i]).id == x.0 && k[x] == kind_from_i32(dvs[i].kind)
 }
 // an assignment inside the box given by the bounds map (ids without an entry are unbounded) with finite values
-pub open spec fn in_box(m: Map<u64, F64>, b: Map<VariableID, Bound>, ids: Set<u64>) -> bool {
-    forall|k: u64| #[trigger] ids.contains(k) ==> m.contains_key(k) && m[k]@ is Fin
-        && (b.contains_key(VariableID(k)) ==> contains(b[VariableID(k)], m[k]@->Fin_0))
-}
-pub open spec fn bounds_wf(b: Map<VariableID, Bound>) -> bool { forall|k: VariableID| #[trigger] b.contains_key(k) ==> b[k].wf() }
 // integer-valued assignment on a set of ids
 pub open spec fn int_state(m: Map<u64, F64>, ids: Set<u64>) -> bool { forall|k: u64| #[trigger] ids.contains(k) ==> m.contains_key(k) && m[k]@ is Fin && is_intr(m[k]@->Fin_0) }
 // "unchanged": every field equal, the constraint list compared element-wise
